@@ -37,7 +37,7 @@ class C09(Check):
     per_run_timeout = 240
     expected_probes = ["sim:sv", "sim:dm", "entry:simulate", "entry:run", "entry:steps", "feat:channel",
                        "feat:keyed-channel", "noise:constant", "noise:insertion", "noise:gate-like",
-                       "noise:with_noise-circuit", "noise:thermal", "draw:uniform-kraus", "draw:choice", "convert-checked",
+                       "noise:with_noise-circuit", "noise:thermal", "order:spectator", "init:density-matrix", "init:vector", "draw:uniform-kraus", "draw:choice", "convert-checked",
                        "feat:reset", "boundary:fallback-branch"]
 
     def setup(self) -> None:
@@ -233,7 +233,45 @@ class C09(Check):
                 order = sorted(sim_circuit.all_qubits())
                 if len(order) > 1 and tape.chance(1, 4, "permute-order?"):
                     order = tape.shuffle(order, "order")
+                if len(order) <= 3 and tape.chance(1, 4, "spectator?"):
+                    # a qubit the circuit never touches, present only in qubit_order
+                    order.insert(tape.draw(len(order) + 1, "spectator-pos"), cirq.LineQubit(7))
+                    ctx.probe("order:spectator")
+                D = int(np.prod([q.dimension for q in order])) if order else 1
+                init = 0
+                ref_init = None
+                ik = tape.weighted([5, 2, 2, 2], "init")
+                if ik == 1:
+                    init = tape.draw(D, "init-index")
+                    ctx.probe("init:int")
+                elif ik == 2:
+                    vals = [tape.draw(9, "amp") - 4 for _ in range(2 * D)]
+                    v = np.array(vals[:D], dtype=float) + 1j * np.array(vals[D:], dtype=float)
+                    if np.linalg.norm(v) == 0:
+                        v[0] = 1
+                    v = v / np.linalg.norm(v)
+                    ref_init = v
+                    init = v.astype(dtype if tape.chance(2, 3, "init-same-dtype?") else
+                                    (np.complex128 if dtype == np.complex64 else np.complex64))
+                    ctx.probe("init:vector")
+                elif ik == 3 and kind == "dm":
+                    # a mixed initial state given as a density matrix (e.g. the final state of an earlier run)
+                    k = 1 + tape.draw(min(3, D), "init-rank")
+                    rho0 = np.zeros((D, D), dtype=complex)
+                    wts = [1 + tape.draw(4, "init-w") for _ in range(k)]
+                    for j in range(k):
+                        vals = [tape.draw(9, "amp") - 4 for _ in range(2 * D)]
+                        v = np.array(vals[:D], dtype=float) + 1j * np.array(vals[D:], dtype=float)
+                        if np.linalg.norm(v) == 0:
+                            v[j % D] = 1
+                        v = v / np.linalg.norm(v)
+                        rho0 += wts[j] / sum(wts) * np.outer(v, v.conj())
+                    ref_init = rho0
+                    init = rho0.astype(dtype if tape.chance(2, 3, "init-same-dtype?") else
+                                       (np.complex128 if dtype == np.complex64 else np.complex64))
+                    ctx.probe("init:density-matrix")
                 n_leaves = qdrive.check_simulate(P, sim_circuit, cfg, ctx, max_leaves=400, qubit_order=order,
+                                                 initial_state=init, ref_initial=ref_init,
                                                  stepwise=(entry == "steps"), ref_circuit=ref_circuit, stats=stats,
                                                  boundary_call=(tape.draw(3, "boundary-call") if kind == "sv" and
                                                                 tape.chance(1, 2, "boundary-u?") else None))
